@@ -397,7 +397,10 @@ int EGLPNUM_TYPENAME_ILLtest_lp_state_next_is (
 	const char *str)
 {
 	EGLPNUM_TYPENAME_ILLread_lp_state_skip_blanks (state, 0);
-	if (strncasecmp (state->p, str, strlen (str)) == 0)
+	/* str must be a whole word: "free1 <= 1" on the next Bounds line is a
+	 * column called free1, not the keyword FREE followed by "1 <= 1" */
+	if (strncasecmp (state->p, str, strlen (str)) == 0 &&
+			!EGLPNUM_TYPENAME_ILLis_lp_name_char (state->p[strlen (str)], 1))
 	{
 		state->p += strlen (str);
 		return 1;
